@@ -399,6 +399,9 @@ impl<'a> Visitor for FaultVisitor<'a> {
         }
         if self.cfg.io_faults {
             self.io_faults(cx, &before, &after, cx.nops_start, nops_end);
+            if matches!(op, Op::RSync(_)) {
+                self.io_faults_serving_side(cx, &before);
+            }
         }
     }
 }
@@ -556,6 +559,77 @@ impl<'a> FaultVisitor<'a> {
     }
 }
 
+impl<'a> FaultVisitor<'a> {
+    /// A storage error on the *serving* core while it creates the proof for a replica's request:
+    /// create_proof must return an error, the replica must be untouched and the serving core
+    /// must answer as before.
+    fn io_faults_serving_side(&mut self, cx: &mut Cx<'_>, before: &SysModel) {
+        let op = cx.op().clone();
+        let hist: Vec<Op> = cx.hist.to_vec();
+        let n0 = cx.wr_nops_start;
+        let n1 = env::nops(&cx.sys.wr.w);
+        for k in n0..n1 {
+            self.bump("io_fault_positions", 1);
+            let mut sys = Sys::new(true, CacheCfg::Off);
+            sys.altered = cx.sys.altered;
+            let mut ok = true;
+            for o in &hist[..hist.len() - 1] {
+                if !sys.exec(o).is_ok() {
+                    ok = false;
+                    break;
+                }
+            }
+            if !ok {
+                return;
+            }
+            let ww = sys.wr.w.clone();
+            {
+                let mut w = ww.lock().unwrap();
+                if w.nops != n0 {
+                    eprintln!("harness: storage-op count of the writer diverged while replaying a prefix ({} vs {})", w.nops, n0);
+                    std::process::exit(2);
+                }
+                w.fail_at = Some(k);
+                w.failed_kind = None;
+            }
+            let out = sys.exec_real(&op);
+            let failed_kind = {
+                let mut w = ww.lock().unwrap();
+                w.fail_at = None;
+                w.failed_kind.take()
+            };
+            let Some((fs, fk)) = failed_kind else { continue };
+            let window = format!("serving-side io-fail {:?} {}", fk, env::STORE_NAMES[fs]);
+            let fault = json!({"kind": "io-serving", "k": k - n0, "of": n1 - n0, "op": format!("{:?} {}", fk, env::STORE_NAMES[fs])});
+            let mut viol: Option<(String, String)> = None;
+            if !matches!(out, Out::Err(_)) {
+                viol = Some((if out.is_panic() { "io-fault-panics" } else { "io-fault-swallowed" }.to_string(), format!("create_proof side returned {}", out.brief())));
+            }
+            if viol.is_none() {
+                // replica untouched, writer answers as before (live instances)
+                let len = before.w.len();
+                let (hp, gp) = probes_for(len, false);
+                let wobs = observe(sys.wr.c(), &hp, &gp);
+                if let Some((c, d)) = diff_obs(&wobs, &expect_writer(&before.w, &hp, &gp), &hp, &gp, false) {
+                    viol = Some((format!("serving-core-changed:{c}"), d));
+                }
+                if viol.is_none() {
+                    let robs = observe(sys.rp.as_mut().unwrap().c(), &hp, &gp);
+                    if let Some((c, d)) = diff_obs(&robs, &expect_replica(&before.w, before.r.as_ref().unwrap(), &hp, &gp), &hp, &gp, false) {
+                        viol = Some((format!("replica-changed:{c}"), d));
+                    }
+                }
+            }
+            if let Some((clause, detail)) = viol {
+                let sig = format!("last={} window=[{}]", op.kind(), window);
+                let mut case = cx.case(self.cfg.prop, "fault");
+                case["fault"] = fault.clone();
+                self.rep.violate(&clause, sig, format!("history [{}], fault {}: {}", hist_brief(&hist), fault, detail), case, hist.len() * 1000 + (k - n0) as usize);
+            }
+        }
+    }
+}
+
 // ------------------------------------------------------------------------------------------
 // shared runner for C02 / C07 / C10 (and the crash part of C08 / C12)
 
@@ -618,6 +692,14 @@ pub fn replica_ops_growth(m: &SysModel, max_writer_len: u64) -> Vec<Op> {
     }
     if m.w.len() < max_writer_len {
         v.push(Op::Append(Blk::P(2, 4)));
+    }
+    if let Some(r) = m.r.as_ref() {
+        if let Some(&h) = r.held.iter().next() {
+            v.push(Op::RClear(h, h + 1));
+        }
+        if r.len > 1 {
+            v.push(Op::RClear(r.len - 1, r.len + 40));
+        }
     }
     v.dedup();
     v
